@@ -415,6 +415,10 @@ def stage_term(r: Dict[str, Any], stage: str) -> Tuple[str, Dict[str, Any]]:
         return "(@Ok unit tt)", st
     if c == "parser_error":
         return f'(@ParserError unit "{st.get("error")}"%string)', st
+    if c == "renderer_error":       # a RendererError subclass: _main.py reports it
+        return '(@ParserError unit "RendererError"%string)', st
+    if c == "os_error":
+        return '(@ParserError unit "OSError"%string)', st
     if c == "crash":
         e = st.get("exc")
         return f"(@Crash unit {e if e in EXN else 'OtherExn'})", st
